@@ -130,16 +130,18 @@ func (r *runner) run(ctx context.Context, isStream bool, input any, opts ...Opti
 	tm := r.initTaskManager(runWrapper, opts...)
 	maxSteps := r.options.maxRunSteps
 
+	// an option designated to a node is meant for that node (a nested graph), not for this graph:
+	// extractOption forwards it.
 	if r.dag {
 		for i := range opts {
-			if opts[i].maxRunSteps > 0 {
+			if opts[i].maxRunSteps > 0 && len(opts[i].paths) == 0 {
 				return nil, newGraphRunError(fmt.Errorf("cannot set max run steps in dag"))
 			}
 		}
 	} else {
 		// Update maxSteps if provided in options.
 		for i := range opts {
-			if opts[i].maxRunSteps > 0 {
+			if opts[i].maxRunSteps > 0 && len(opts[i].paths) == 0 {
 				maxSteps = opts[i].maxRunSteps
 			}
 		}
